@@ -3,7 +3,7 @@
 fn=$1; shift
 out=$(mktemp /tmp/devrun.XXXXXX.json)
 start=$(date +%s.%N)
-timeout ${DEV_TIMEOUT:-600} /verif/bin/gosmt -fn $fn -out $out "$@" 2>/tmp/devrun_$fn.err
+timeout ${DEV_TIMEOUT:-150} /verif/bin/gosmt -fn $fn -out $out "$@" 2>/tmp/devrun_$fn.err
 rc=$?
 python3 - "$out" "$fn" "$rc" "$start" <<'PY'
 import json,sys,time
